@@ -103,6 +103,88 @@ for _fn, _tgt in (("to_native", "bo_native"), ("to_big_endian", "bo_big"), ("to_
     )
 
 
+# ------------------------------------------------------------------------------------------------ descriptor stripping
+_DESCR = "tuple[tuple[str,str],tuple[str,str,opaque],tuple[str,str]]"
+_STRIPPED = ("len(result) == 3"
+             " and result[0][0] == descr[0][0] and result[0][1] == descr[0][1][1:] and len(result[0]) == 2"
+             " and result[1][0] == descr[1][0] and result[1][1] == descr[1][1][1:] and len(result[1]) == 3"
+             " and result[2][0] == descr[2][0] and result[2][1] == descr[2][1][1:] and len(result[2]) == 2")
+
+contract(
+    "esutil.numpy_util.descr_to_native",
+    params=dict(descr=_DESCR),
+    ensures={"first-character-of-each-type-string-removed-names-and-shapes-kept": _STRIPPED,
+             "shape-entry-kept": "same_object(result[1][2], descr[1][2])"},
+    props=["C16"], runtime=False,
+)
+
+contract(
+    "esutil.recfile.Util.remove_dtype_byteorder",
+    params=dict(dtype="obj:dtype{descr:%s}" % _DESCR),
+    ensures={"first-character-of-each-type-string-removed-names-and-shapes-kept": _STRIPPED.replace("descr[", "dtype.descr["),
+             "shape-entry-kept": "same_object(result[1][2], dtype.descr[1][2])"},
+    props=["C16"], runtime=False,
+)
+
+contract("esutil.numpy_util.descr_to_native#bounded", params=dict(descr="opaque"), assumed=True,
+         runtime_name="esutil.numpy_util.descr_to_native",
+         why_assumed="run-time evaluation of the proved clause on real numpy descriptors (bounded, labelled)",
+         rt_ensures={"stripped": "[tuple(d) for d in result] == [tuple([d[0], d[1][1:]] + list(d[2:])) for d in descr]"},
+         props=["C16"])
+contract("esutil.recfile.Util.remove_dtype_byteorder#bounded", params=dict(dtype="opaque"), assumed=True,
+         runtime_name="esutil.recfile.Util.remove_dtype_byteorder",
+         why_assumed="run-time evaluation of the proved clause on real numpy dtypes (bounded, labelled)",
+         rt_ensures={"stripped": "[tuple(d) for d in result] == [tuple([d[0], d[1][1:]] + list(d[2:])) for d in dtype.descr]"},
+         props=["C16"])
+
+
+@domain("esutil.numpy_util.descr_to_native#bounded")
+def _dom_descr(tier, seed):
+    for a in _bo_arrays(tier, seed):
+        if a.dtype.names is not None:
+            yield dict(args=[a.dtype.descr], key=str(a.dtype.descr))
+
+
+@domain("esutil.recfile.Util.remove_dtype_byteorder#bounded")
+def _dom_rmbo(tier, seed):
+    for a in _bo_arrays(tier, seed):
+        if a.dtype.names is not None:
+            yield dict(args=[a.dtype], key=str(a.dtype.descr))
+
+
+# ------------------------------------------------------------------------------------------------ esutil.recfile.Util twins
+contract(
+    "esutil.recfile.Util.is_little_endian",
+    params=dict(dtype="bodtype"), returns="bool",
+    ensures={"agrees-with-declared-order-on-all-four-spellings": "result == bo_little(dtype)"},
+    props=["C16"], runtime=False,
+)
+
+contract(
+    "esutil.recfile.Util.to_native_inplace",
+    params=dict(array="bo"),
+    variants=_VARIANTS,
+    requires={"uniformly-ordered": _UNIFORM},
+    ensures={
+        "declared-native": "all(bo_order(array, f) == 3 or bo_native(array, f) for f in bo_fields(array))",
+        "values-preserved": "all(bo_value(array, f) == bo_value(old(array), f) for f in bo_fields(array))",
+        "already-native-input-is-left-bit-identical":
+            "not all(bo_order(old(array), f) == 3 or bo_native(old(array), f) for f in bo_fields(array))"
+            " or all(bo_bytes(array, f) == bo_bytes(old(array), f) and bo_order(array, f) == bo_order(old(array), f)"
+            "        for f in bo_fields(array))",
+        "returns-nothing": "result is None",
+    },
+    modifies=["array"],
+    props=["C16"],
+)
+
+
+@domain("esutil.recfile.Util.to_native_inplace")
+def _dom_to_native_inplace(tier, seed):
+    for a in _bo_arrays(tier, seed):
+        yield dict(args=[a.copy()], key="%s shape=%s" % (a.dtype.descr, a.shape))
+
+
 # ------------------------------------------------------------------------------------------------ bounded domains
 def _bo_arrays(tier, seed):
     """plain arrays of every numeric kind / size in both orders, strings, structured arrays with one shared order"""
